@@ -10,8 +10,9 @@ import time
 
 VERIF = os.path.dirname(os.path.dirname(os.path.abspath(__file__)))
 BENIGN = os.path.join(VERIF, "benign")
-RELATED = {"C02": ["C02", "C18", "C03"], "C09": ["C09", "C01"], "C17": ["C17", "C02"], "C03": ["C03", "C02", "C18"],
-           "C01": ["C01", "C06", "C14", "C02", "C09"], "C10": ["C10", "C09"]}
+RELATED = {"C02": ["C02", "C18", "C03", "C17"], "C09": ["C09", "C01", "C14"], "C17": ["C17", "C02"], "C03": ["C03", "C02", "C18"],
+           "C01": ["C01", "C06", "C14", "C02", "C09"], "C10": ["C10", "C09"], "C06": ["C06", "C01", "C14", "C09"],
+           "C14": ["C14", "C01", "C09", "C10"], "C18": ["C18", "C02", "C03", "C09"]}
 
 
 def sh(*a, **k):
